@@ -563,7 +563,7 @@ _PYF = {
 }
 
 
-def evalf(t, env, funcs=None):
+def evalf(t, env, funcs=None, cache=None):
     """Evaluate z3 term *t* in float arithmetic.  *env*: symbol name -> float;
     *funcs*: UF name -> python callable (defaults: libm)."""
     user = funcs
@@ -577,7 +577,8 @@ def evalf(t, env, funcs=None):
                     pass
             return _PYF[name]
     funcs = _F()
-    cache = {}
+    if cache is None:
+        cache = {}
 
     def ev(e):
         k = e.get_id()
